@@ -209,6 +209,30 @@ func registerExternals(m *Machine) {
 			m.Model[okName] = sym.BoolVal(okc)
 		}
 		fv := m.havocFloat("ParseFloat", nf)
+		// the only strings ParseFloat turns into NaN spell "nan" (any case, optional sign)
+		{
+			c := m.Ctx
+			spellsNaN := c.F
+			for _, off := range []int{0, 1} {
+				if len(ss.s) != 3+off {
+					continue
+				}
+				is := func(i int, lo, up byte) *sym.Term {
+					bt := m.byteTerm(ss, i)
+					return c.Or(c.Eq(bt, c.BVC(8, uint64(lo))), c.Eq(bt, c.BVC(8, uint64(up))))
+				}
+				conj := []*sym.Term{is(off, 'n', 'N'), is(off+1, 'a', 'A'), is(off+2, 'n', 'N')}
+				if off == 1 {
+					conj = append(conj, is(0, '+', '-'))
+				}
+				spellsNaN = c.Or(spellsNaN, c.And(conj...))
+			}
+			m.AssumeFixed(c.Or(c.Not(c.FpIsNaN(fv.t)), spellsNaN), "ParseFloat-nan-only-for-nan")
+			if fv.c.(float64) != fv.c.(float64) && !m.evalTermBool(spellsNaN) {
+				fv = &symv{c: float64(0), t: fv.t}
+				m.Model[fv.t.Name] = sym.FPVal(0)
+			}
+		}
 		if !m.truth(&symv{c: okc, t: okv}, "ParseFloat-ok") {
 			errv := m.hostError(fr, "strconv", "*strconv.NumError", "strconv.ParseFloat: parsing "+strconv.Quote(ss.s)+": invalid syntax")
 			r := tuple{float64(0), errv}
